@@ -138,11 +138,16 @@ def run(ctx, rep):
         """The conditions that decide whether the rekey call is reached after the MAC: every
         `x & c` and every ct_eq over a state view whose result flows into the discriminant of a
         switch that has the rekey call on some but not all of its arms."""
-        rk = [c for c in f.calls() if rekey in prog.callee_fns(c)]
         finals = [x for x in f.calls() if cm.POLY_FINAL.search(x.rpath)]
-        if not rk or not finals:
+        if not finals:
             return None
         region = f.reachable_from_after(finals[0].bb)
+        # the rekey action: a call of the public rekey function, or (when its body is shared through a
+        # private helper that was folded in) the creation of a fresh cipher after the MAC was finalised
+        rk = [c for c in f.calls() if rekey in prog.callee_fns(c)] or \
+            [c for c in f.calls() if c.path.endswith("KeyIvInit::new") and c.bb in region]
+        if not rk:
+            return None
         stv = views_of(f, [state_param(f)])
         rets = [b for b in range(f.n) if f.blocks[b]["t"]["k"] == "return"]
         deciding = set()
@@ -181,14 +186,7 @@ def run(ctx, rep):
     def grid(f, e, lens):
         """value of a length expression with the lengths of whole parameter slices fixed (abstract
         evaluation of the expression tree; no code is run)"""
-        env = {}
-        for a_ in atoms_of(e):
-            if a_.path == LEN and a_.args and a_.fn is f:
-                ls_ = list(operand_locals(a_.args[0]))
-                back_ = f.backward_slice(ls_) | set(ls_)
-                hit = [p_ for p_ in lens if p_ in back_]
-                if len(hit) == 1 and not cm.view_info(f, ls_[0])[1]:
-                    env[(f.key, a_.bb)] = lens[hit[0]]
+        env = {("lenof", f.key, p_): v_ for p_, v_ in lens.items()}
         return evaluate(e, env)
     for f0 in (push, pull):
         f = V[f0.key]
@@ -196,6 +194,7 @@ def run(ctx, rep):
         adp = [p for p in cm.params_of(f) if "Option<&" in f.locals[p]["t"] and "[u8]" in f.locals[p]["t"]]
         # the message (push) / ciphertext (pull) parameter: the only immutable byte slice
         src = [p for p in cm.params_of(f) if f.locals[p]["t"] in ("&[u8]", "&'_ [u8]")]
+        outs = [p for p in cm.params_of(f) if f.locals[p]["t"] == "&mut [u8]"]
         pads = []
         for c in ups:
             ls = list(operand_locals(c.args[1]))
@@ -203,39 +202,40 @@ def run(ctx, rep):
             if root is None or not narrowed or "[u8; 16]" not in f.locals[root]["t"]:
                 continue
             e = call_arg_exprs(c)[1]
-            # the range end of the index expression
             rng = [x for x in (call_arg_exprs(e.a) if e.k == "call" else []) if x.k == "agg"]
             end = rng[0].c[-1] if rng and rng[0].c else None
-            from_ad = False
-            for a_ in atoms_of(end) if end is not None else ():
-                if a_.path == LEN and a_.args and a_.fn is f:
-                    l_ = list(operand_locals(a_.args[0]))
-                    if adp and adp[0] in (f.backward_slice(l_) | set(l_)):
-                        from_ad = True
-            pads.append((c, deep_repr(e), from_ad, end))
+            pads.append((c, deep_repr(e), end))
+        extra = 17 if f0 is pull else 0
         okad = okbody = False
         detail = []
-        for c, t, from_ad, end in pads:
-            structural = "BitAnd" in t and "const(15)" in t
-            if from_ad:
-                vals = [grid(f, end, {adp[0]: a_}) if end is not None else None for a_ in range(0, 40)]
-                if all(isinstance(v, int) and not isinstance(v, bool) for v in vals):
-                    good_ = vals == [(16 - a_ % 16) & 15 for a_ in range(0, 40)]
-                    detail.append("AD pad evaluates to (16-|AD|%%16)&15 on |AD|=0..39: %s" % good_)
+        GA, GM = range(0, 20), range(0, 36)
+        for c, t, end in pads:
+            tab = None
+            if end is not None and len(adp) == 1 and len(src) == 1:
+                tab = {}
+                for a_ in GA:
+                    for m_ in GM:
+                        lens = {adp[0]: a_, src[0]: m_ + extra}
+                        for o_ in outs:      # push writes into `ciphertext` (len = mlen + 17); pull into `message`
+                            lens[o_] = m_ + (17 if f0 is push else 0)
+                        v_ = grid(f, end, lens)
+                        v_ = v_[1] if isinstance(v_, tuple) and v_ and v_[0] == "ovf" else v_
+                        tab[(a_, m_)] = v_
+                if not all(isinstance(v_, int) and not isinstance(v_, bool) for v_ in tab.values()):
+                    tab = None
+            if tab is not None:
+                is_ad = all(tab[(a_, m_)] == (16 - a_ % 16) & 15 for a_ in GA for m_ in GM)
+                is_body = all(tab[(a_, m_)] == (16 - 64 + m_) & 15 for a_ in GA for m_ in GM)
+                detail.append("pad length table over |AD|<20, mlen<36: %s" % ("(16-|AD|%16)&15" if is_ad else "(0x10-64+mlen)&0xf" if is_body else "neither formula"))
+                okad, okbody = okad or is_ad, okbody or is_body
+            else:
+                structural = "BitAnd" in t and "const(15)" in t
+                if "Rem" in t:
+                    okad = okad or structural
+                    detail.append("AD pad (structural): %s" % structural)
                 else:
-                    good_ = structural
-                    detail.append("AD pad (structural): %s" % good_)
-                okad = okad or good_
-            elif len(src) == 1:
-                extra = 17 if f0 is pull else 0
-                vals = [grid(f, end, {src[0]: m_ + extra}) if end is not None else None for m_ in range(0, 48)]
-                if all(isinstance(v, int) and not isinstance(v, bool) for v in vals):
-                    good_ = vals == [(16 - 64 + m_) & 15 for m_ in range(0, 48)]
-                    detail.append("body pad evaluates to (0x10-64+mlen)&0xf on mlen=0..47: %s" % good_)
-                else:
-                    good_ = structural and "Rem" not in t
-                    detail.append("body pad (structural): %s" % good_)
-                okbody = okbody or good_
+                    okbody = okbody or structural
+                    detail.append("body pad (structural): %s" % structural)
         rep.ob("PADS", "%s|AD pad16 and body pad absorbed" % f.name[-4:], okad and okbody and len(pads) == 2,
                "%d MAC updates, %d over a narrowed 16-byte zero pad; %s" % (len(ups), len(pads), "; ".join(detail)), loc=f.loc())
     # ---- REKEY --------------------------------------------------------------------------------
